@@ -204,6 +204,13 @@ fn loc_entry<'a>(m: &'a mut Monitors, addr: usize, owner: u8, epoch: u32) -> &'a
 }
 
 fn access(addr: usize, site: &'static str, write: bool) {
+    // a hooked non-atomic access to a published waiter region is a scheduling point too: the consequences
+    // of an unprotected access (not only its happens-before verdict) become reachable by schedules
+    if let Some(e) = ex() {
+        if e.abort.is_none() && e.mon.regions.iter().any(|r| r.live && r.contains(addr)) {
+            crate::exec::switch(false);
+        }
+    }
     let Some(e) = on() else { return };
     check_dead(e, addr, site);
     let cur = e.current;
@@ -252,7 +259,13 @@ pub fn mem_write(addr: usize, site: &'static str) {
 
 /// The owner makes `[sig, sig+sig_len)` and `[slot, slot+slot_len)` reachable by peers.
 pub fn publish(sig: usize, sig_len: usize, slot: usize, slot_len: usize) {
-    let Some(e) = on() else { return };
+    // regions are tracked in every run (hooked accesses inside them are scheduling points);
+    // the race / lifetime *checks* run only when the monitors are on
+    let Some(e) = ex() else { return };
+    if e.abort.is_some() {
+        return;
+    }
+    let checks = e.cfg.monitors;
     let cur = e.current;
     e.mon.publishes += 1;
     // re-publication of a live region (stream re-arm): the owner re-initialises it
@@ -263,7 +276,7 @@ pub fn publish(sig: usize, sig_len: usize, slot: usize, slot_len: usize) {
             republish = true;
         }
     }
-    if republish {
+    if republish && checks {
         owner_write_region(e, sig, "re-publish");
     }
     let m = &mut e.mon;
@@ -320,11 +333,17 @@ fn owner_write_region(e: &mut crate::exec::Exec, sig: usize, site: &'static str)
 
 /// The owner's operation is over (it returns, or the future is dropped).
 pub fn retire(sig: usize) {
-    let Some(e) = on() else { return };
-    if !e.mon.regions.iter().any(|r| r.live && r.sig.0 == sig) {
+    let Some(e) = ex() else { return };
+    if e.abort.is_some() || !e.mon.regions.iter().any(|r| r.live && r.sig.0 == sig) {
         return;
     }
     e.mon.retires += 1;
+    if !e.cfg.monitors {
+        let m = &mut e.mon;
+        let r = m.regions.iter_mut().find(|r| r.live && r.sig.0 == sig).unwrap();
+        r.live = false;
+        return;
+    }
     // (1) the channel must not still list the waiter
     let listed = e.mon.waitlists.iter().any(|(c, l)| l.contains(&sig) && !e.mon.teardown.contains(c));
     if listed {
